@@ -86,6 +86,20 @@ def len {α} (l : List α) : Int := (l.length : Int)
 /-- the elements of a byte string as Python ints (`for x in data`, `list(data)`) -/
 def ints (l : Bytes) : List Int := l.map (fun (b : Nat) => (b : Int))
 
+/-- `l.remove(x)`: the first occurrence is removed, `ValueError` when there is none -/
+def removeFirst {α} [BEq α] (l : List α) (x : α) : Py (List α) :=
+  if l.contains x then .ok (l.erase x) else .error .value
+
+/-- `d.popleft()` as a statement (`IndexError` on an empty deque); the value is dropped -/
+def popLeft {α} (l : List α) : Py (List α) :=
+  match l with
+  | [] => .error .index
+  | _ :: t => .ok t
+
+/-- `s.startswith(t)` / `s.endswith(t)` on `str` -/
+def strStartsWith (s t : String) : Bool := t.toList.isPrefixOf s.toList
+def strEndsWith (s t : String) : Bool := t.toList.isSuffixOf s.toList
+
 /-- `data[i]` on a byte string -/
 def getB (l : Bytes) (i : Int) : Py Int :=
   match idx l i with
